@@ -241,27 +241,38 @@ def read_write(chk, prog, names):
 def who(chk, prog, names, cg, fa):
     short = lambda p: p.split("::")[-1]
 
+    entries = cc.api_entry_points(prog, names)
+
     def writers(adt, field, allowed, key):
-        got = set(short(p) for p in fa.writers(adt, field))
-        chk.check(got <= allowed, "T-WRITERS/%s" % key, "%s is written/mutably borrowed by %s; allowed %s" % (key, sorted(got), sorted(allowed)))
+        # which API entry points can end up storing to the field (through whatever private helpers)
+        got = set()
+        direct = fa.writers(adt, field)
+        for w_ in direct:
+            w0 = cc.strip_closure(w_)
+            if w0 in entries:
+                got.add(short(w0))
+            got |= cc.entry_points_reaching(prog, cg, names, w_)
+        chk.check(got <= allowed and got, "T-WRITERS/%s" % key, "%s can be written from the API entry points %s (stores in %s); the property allows only %s" % (
+            key, sorted(got), sorted(short(x) for x in direct), sorted(allowed)))
         chk.count("writer-sets")
 
     def callers(path, allowed, key):
-        got = set(short(s.fn.path) for s in cg.callers_of(path))
-        chk.check(got <= allowed and got, "T-WRITERS/%s/callers" % key, "%s is called from %s; allowed %s" % (key, sorted(got), sorted(allowed)))
+        # who may reach it, stated over the API surface (public Emulator methods and the CPU bus implementation):
+        # private helpers, closures and inlining between them do not matter
+        got = cc.entry_points_reaching(prog, cg, names, path)
+        chk.check(got <= allowed and got, "T-WRITERS/%s/callers" % key,
+                  "%s can be reached from the API entry points %s; the property allows only %s" % (key, sorted(got), sorted(allowed)))
         chk.count("caller-sets")
-    writers(names.MEMORY, "map", {"remap"}, "ZXMemory.map")
-    writers(names.MEMORY, "rom", {"rom_page_data_mut", "force_write"}, "ZXMemory.rom")
-    writers(names.MEMORY, "ram", {"write", "force_write", "ram_page_data_mut"}, "ZXMemory.ram")
-    # load_7ffd (snapshot loaders) re-enables paging before applying the stored latch: a snapshot describes the lock too
-    writers(names.CTL, "paging_enabled", {"write_7ffd", "load_7ffd"}, "ZXController.paging_enabled")
-    callers(prog.fn_path("rustzx_core", "ZXMemory::remap"), {"write_7ffd"}, "ZXMemory::remap")
-    callers(names.ctl("write_7ffd"), {"write_io", "load", "process_spcr_block", "load_7ffd"}, "ZXController::write_7ffd")
-    try:
-        callers(names.ctl("load_7ffd"), {"load", "process_spcr_block"}, "ZXController::load_7ffd")
-    except KeyError:
-        pass
-    callers(prog.fn_path("rustzx_core", "ZXMemory::rom_page_data_mut"), {"load_default_rom", "load_rom_binary_16k_pages"}, "ZXMemory::rom_page_data_mut")
+    writers(names.MEMORY, "map", {"write_io", "load_snapshot"}, "ZXMemory.map")
+    writers(names.MEMORY, "rom", {"new", "load_rom", "execute_poke"}, "ZXMemory.rom")
+    writers(names.MEMORY, "ram", {"write_internal", "execute_poke", "load_snapshot", "load_screen"}, "ZXMemory.ram")
+    # snapshot loaders re-enable paging before applying the stored latch: a snapshot describes the lock too
+    writers(names.CTL, "paging_enabled", {"write_io", "load_snapshot"}, "ZXController.paging_enabled")
+    # the memory map changes only through a port write by the CPU or through a snapshot load
+    callers(prog.fn_path("rustzx_core", "ZXMemory::remap"), {"write_io", "load_snapshot"}, "ZXMemory::remap")
+    callers(names.ctl("write_7ffd"), {"write_io", "load_snapshot"}, "ZXController::write_7ffd")
+    # ROM contents: construction (default ROM) and the ROM loader; pokes are the only other writer of ROM bytes
+    callers(prog.fn_path("rustzx_core", "ZXMemory::rom_page_data_mut"), {"new", "load_rom"}, "ZXMemory::rom_page_data_mut")
     callers(prog.fn_path("rustzx_core", "ZXMemory::force_write"), {"execute_poke"}, "ZXMemory::force_write")
     for m, n in (("Sinclair48K", 1), ("Sinclair128K", 2)):
         s = cc.specs_of(prog, names, m)
